@@ -67,7 +67,10 @@ def generate(rng, tier, index):
     # operation-level crash points, a complete tool run with another --rpc afterwards): whether a
     # batch contains enough of these must not depend on the seed (seeded-C09-agent11 did)
     forced_tool = index % 16 == 5
-    if forced_tool:
+    # ... and one in sixteen interrupts a tool run that REFRESHES an adjacent index made when the
+    # product lived elsewhere (same meaning, other bytes; crash points mostly late in the text)
+    forced_moved = index % 16 == 13
+    if forced_tool or forced_moved:
         scenario = rng.choice(["S1", "S1", "S2"])
     if scenario == "S0":
         wp = _small_world(rng, ("local", "file", "simfs", "simfs_opt"))
@@ -84,9 +87,9 @@ def generate(rng, tier, index):
                 "location": rng.choice(["user", "user", "adjacent", "both"]),
                 "image": rng.randrange(len(wp["images"])),
                 "others": rng.choice(["none", "complete"])}
-    wp = _small_world(rng, ("local", "file") if forced_tool else
+    wp = _small_world(rng, ("local", "file") if forced_tool or forced_moved else
                       ("local", "local", "file", "simfs", "simfs_opt"))
-    if forced_tool:
+    if forced_tool or forced_moved:
         for im in wp["images"]:
             im["lines"] = max(im["lines"], 6)
         wp["dirs"] = [d for d in wp.get("dirs", []) if d.isascii() and " " not in d
@@ -143,6 +146,14 @@ def generate(rng, tier, index):
             plan["at"] = {"event": rng.randrange(2, 12)}
             plan["ats"] = [plan["at"]] + [{"event": e} for e in sorted(rng.sample(range(0, 30), 7))]
             plan["chunk"] = rng.choice([64, 512, 4096, 1 << 30])
+        if forced_moved:
+            plan["writer"] = "cli"
+            plan["nth"] = 0
+            plan["preexisting"] = "moved"
+            plan["moved_where"] = rng.choice(["adjacent", "adjacent", "both"])
+            plan["at"] = {"frac": 0.5 + 0.5 * rng.random()}
+            plan.pop("ats", None)
+            plan.pop("chunk", None)
         if plan["preexisting"] == "moved":
             # the old and the new document differ late in the text (stored location): several
             # crash points per run, most of them in the last third
